@@ -555,6 +555,8 @@ def module_history(ctx, case):
                 raise ValueError('b fails')
             if case['b'] == 'retry':
                 return Retry
+            if case['b'] == 'bare-finish':
+                return Finish      # no final status given: the idle status of the machine applies
             return self.final_status(IDLE, 'done')
 
         def state_plain(self, sm):     # a first state without status code: BUSY is the default while it runs
@@ -639,6 +641,9 @@ def module_history(ctx, case):
             if stopped and tuple(m.read_status()) != (100, 'stopped') and case['b'] != 'raise':
                 ctx.finding('module:stopped-status-missing', sub, f'status {m.read_status()!r}')
                 return
+            if not stopped and expect_busy and tuple(m.read_status()) == (100, 'stopped'):
+                ctx.finding('module:stopped-status-of-an-earlier-run', sub, f'the run was not stopped, status {m.read_status()!r}')
+                return
             ctx.ok('final-status')
         was_active = active
     if 'stop' in case['ops'] and 'start' in case['ops']:
@@ -648,7 +653,7 @@ def module_history(ctx, case):
 
 @st.composite
 def module_case(draw):
-    return {'kind': 'module', 'retries': draw(st.integers(0, 3)), 'chain': draw(st.booleans()), 'b': draw(st.sampled_from(['finish', 'retry', 'raise'])),
+    return {'kind': 'module', 'retries': draw(st.integers(0, 3)), 'chain': draw(st.booleans()), 'b': draw(st.sampled_from(['finish', 'retry', 'raise', 'bare-finish'])),
             'cleanup_cycles': draw(st.sampled_from([0, 0, 1, 3])), 'first': draw(st.sampled_from(['coded', 'plain'])),
             'ops': draw(st.lists(st.sampled_from(['start', 'stop', 'cycle', 'cycle', 'cycle']), min_size=1, max_size=14))}
 
